@@ -6,10 +6,14 @@ import (
 	"os"
 
 	"verif/internal/c15"
+	"verif/internal/c16"
+	"verif/internal/c17"
 )
 
 var checks = map[string]func(tier, replay string){
 	"C15": c15.Main,
+	"C16": c16.Main,
+	"C17": c17.Main,
 }
 
 func main() {
